@@ -26,3 +26,11 @@ package ext
 //@   pure
 //@ trusted func github.com/osrg/gobgp/v4/pkg/server.(fsmStateReason).String
 //@   pure
+
+// packValues (pkg/packet/mrt) writes its operands with encoding/binary.Write (reflection, outside the engine):
+// assumed - one uint32 operand gives 4 octets, one uint16 operand 2 octets, no error, nothing else written
+//@ trusted func github.com/osrg/gobgp/v4/pkg/packet/mrt.packValues
+//@   modular
+//@   modifies nothing
+//@   ensures len(values) == 1 && typeOf(values[0]) == (uint32) ==> result1 == nil && len(result0) == 4 && fresh(result0)
+//@   ensures len(values) == 1 && typeOf(values[0]) == (uint16) ==> result1 == nil && len(result0) == 2 && fresh(result0)
